@@ -25,6 +25,9 @@ pub struct Scripted {
     /// spans created during polls and held by this object (as a future holds a span across an
     /// await); finished by its destructor
     pub held: Vec<usize>,
+    /// the waker of the latest call: inner objects (and the reactors, timers and channels behind
+    /// them) keep a clone of it for as long as they live, also after they completed
+    pub waker: Option<std::task::Waker>,
 }
 
 impl Drop for Scripted {
@@ -162,7 +165,8 @@ impl Scripted {
 pub struct ScriptedFuture(pub Scripted);
 impl Future for ScriptedFuture {
     type Output = u32;
-    fn poll(mut self: Pin<&mut Self>, _cx: &mut Context<'_>) -> Poll<u32> {
+    fn poll(mut self: Pin<&mut Self>, cx: &mut Context<'_>) -> Poll<u32> {
+        self.0.waker = Some(cx.waker().clone());
         match self.0.step() {
             PollEnd::Pending => Poll::Pending,
             _ => Poll::Ready(7),
@@ -173,7 +177,8 @@ impl Future for ScriptedFuture {
 pub struct ScriptedStream(pub Scripted);
 impl Stream for ScriptedStream {
     type Item = u32;
-    fn poll_next(mut self: Pin<&mut Self>, _cx: &mut Context<'_>) -> Poll<Option<u32>> {
+    fn poll_next(mut self: Pin<&mut Self>, cx: &mut Context<'_>) -> Poll<Option<u32>> {
+        self.0.waker = Some(cx.waker().clone());
         match self.0.step() {
             PollEnd::Pending => Poll::Pending,
             PollEnd::Alt => Poll::Ready(Some(1)),
@@ -210,7 +215,8 @@ impl ScriptedSink {
 }
 impl Sink<u32> for ScriptedSink {
     type Error = u8;
-    fn poll_ready(mut self: Pin<&mut Self>, _cx: &mut Context<'_>) -> Poll<Result<(), u8>> {
+    fn poll_ready(mut self: Pin<&mut Self>, cx: &mut Context<'_>) -> Poll<Result<(), u8>> {
+        self.0.waker = Some(cx.waker().clone());
         self.res()
     }
     fn start_send(mut self: Pin<&mut Self>, _item: u32) -> Result<(), u8> {
@@ -219,10 +225,12 @@ impl Sink<u32> for ScriptedSink {
             Poll::Pending => Ok(()),
         }
     }
-    fn poll_flush(mut self: Pin<&mut Self>, _cx: &mut Context<'_>) -> Poll<Result<(), u8>> {
+    fn poll_flush(mut self: Pin<&mut Self>, cx: &mut Context<'_>) -> Poll<Result<(), u8>> {
+        self.0.waker = Some(cx.waker().clone());
         self.res()
     }
-    fn poll_close(mut self: Pin<&mut Self>, _cx: &mut Context<'_>) -> Poll<Result<(), u8>> {
+    fn poll_close(mut self: Pin<&mut Self>, cx: &mut Context<'_>) -> Poll<Result<(), u8>> {
+        self.0.waker = Some(cx.waker().clone());
         self.res()
     }
 }
@@ -231,7 +239,8 @@ impl Sink<u32> for ScriptedSink {
 pub struct ScriptedDuplex(pub Scripted);
 impl Stream for ScriptedDuplex {
     type Item = u32;
-    fn poll_next(mut self: Pin<&mut Self>, _cx: &mut Context<'_>) -> Poll<Option<u32>> {
+    fn poll_next(mut self: Pin<&mut Self>, cx: &mut Context<'_>) -> Poll<Option<u32>> {
+        self.0.waker = Some(cx.waker().clone());
         match self.0.step() {
             PollEnd::Pending => Poll::Pending,
             PollEnd::Alt => Poll::Ready(Some(1)),
@@ -250,7 +259,8 @@ impl ScriptedDuplex {
 }
 impl Sink<u32> for ScriptedDuplex {
     type Error = u8;
-    fn poll_ready(mut self: Pin<&mut Self>, _cx: &mut Context<'_>) -> Poll<Result<(), u8>> {
+    fn poll_ready(mut self: Pin<&mut Self>, cx: &mut Context<'_>) -> Poll<Result<(), u8>> {
+        self.0.waker = Some(cx.waker().clone());
         self.res()
     }
     fn start_send(mut self: Pin<&mut Self>, _item: u32) -> Result<(), u8> {
@@ -259,10 +269,12 @@ impl Sink<u32> for ScriptedDuplex {
             Poll::Pending => Ok(()),
         }
     }
-    fn poll_flush(mut self: Pin<&mut Self>, _cx: &mut Context<'_>) -> Poll<Result<(), u8>> {
+    fn poll_flush(mut self: Pin<&mut Self>, cx: &mut Context<'_>) -> Poll<Result<(), u8>> {
+        self.0.waker = Some(cx.waker().clone());
         self.res()
     }
-    fn poll_close(mut self: Pin<&mut Self>, _cx: &mut Context<'_>) -> Poll<Result<(), u8>> {
+    fn poll_close(mut self: Pin<&mut Self>, cx: &mut Context<'_>) -> Poll<Result<(), u8>> {
+        self.0.waker = Some(cx.waker().clone());
         self.res()
     }
 }
@@ -441,6 +453,7 @@ pub fn wrap(cx: &mut VtCtx, kind: AdapterKind, span_sel: u16, s: StrSeed, script
         in_span,
         eop,
         held: vec![],
+        waker: None,
     };
     let obj = match kind {
         AdapterKind::InSpan => AdapterObj::Fut(Box::pin(ScriptedFuture(mk(true, None)).in_span(span.take().unwrap()))),
@@ -510,7 +523,7 @@ fn wrap_traced_boxed(cx: &mut VtCtx, script: &[PollScript]) {
         (w.adapters.len(), t0)
     };
     let name = "traced-boxed-fn".to_string();
-    let inner = ScriptedFuture(Scripted { adapter: a, script: script.to_vec(), pos: 0, in_span: true, eop: None, held: vec![] });
+    let inner = ScriptedFuture(Scripted { adapter: a, script: script.to_vec(), pos: 0, in_span: true, eop: None, held: vec![], waker: None });
     let c0 = cx_now(cx);
     let Some(fut) = cx.guarded("#[trace] fn returning a boxed future", move |_| crate::exec::traced_boxed(inner)) else { return };
     let c1 = cx_now(cx);
